@@ -179,10 +179,10 @@ def table_interp(x, xs, ys):
     return out
 
 
-def poly_bound(scales, raw):
+def poly_bound(scales, raw, memo=None):
     """Magnitude scale for the tolerance of a graph containing Polynomial/Table scales: sum |c_i||x|^i style bound,
     propagated through the graph (conservative)."""
-    memo = {}
+    memo = {} if memo is None else dict(memo)
 
     def mag(index):
         if index == RAW or index is None:
